@@ -27,11 +27,15 @@ pub struct StackShape {
     pub slots: Vec<(u64, u64)>,
     /// protection of the stack mapping (normally rw = 6)
     pub prot: u8,
+    /// > 0: the stack is a private mapping of a FILE, directly followed by this many PROT_NONE pages
+    /// of the same file. The writer's mapping list merges the two lines (same name), so the
+    /// "mapping" the stack lies in extends over memory that cannot be read.
+    pub noaccess_file_tail_pages: u64,
 }
 
 impl Default for StackShape {
     fn default() -> Self {
-        StackShape { pages: 4, sp_offset: 2 * 4096 + 512, guard_mapping_pages: 0, fill_pattern: true, slots: Vec::new(), prot: 6 }
+        StackShape { pages: 4, sp_offset: 2 * 4096 + 512, guard_mapping_pages: 0, fill_pattern: true, slots: Vec::new(), prot: 6, noaccess_file_tail_pages: 0 }
     }
 }
 
@@ -183,15 +187,26 @@ impl Builder {
             for (off, val) in &shape.slots {
                 pokes.push((stack_base + off, val.to_le_bytes().to_vec()));
             }
+            let kind = if shape.noaccess_file_tail_pages > 0 {
+                let path = format!("{}/stack-file-{index}.bin", self.spec.dir);
+                let _ = std::fs::write(&path, vec![0u8; ((shape.pages + shape.noaccess_file_tail_pages) * PAGE) as usize]);
+                RegionKind::File { path, offset: 0 }
+            } else {
+                RegionKind::Anon
+            };
             self.add_region(Region {
                 addr: stack_base,
                 len: shape.pages * PAGE,
                 prot: shape.prot,
-                kind: RegionKind::Anon,
+                kind: kind.clone(),
                 fill: if shape.fill_pattern { Fill::Pattern } else { Fill::Zero },
                 pokes,
                 unlink_after: false,
             });
+            if let RegionKind::File { path, .. } = kind {
+                let tail = self.alloc(shape.noaccess_file_tail_pages, 0);
+                self.add_region(Region { addr: tail, len: shape.noaccess_file_tail_pages * PAGE, prot: 0, kind: RegionKind::File { path, offset: shape.pages * PAGE }, fill: Fill::Keep, pokes: Vec::new(), unlink_after: false });
+            }
             // keep the page after the stack unmapped
             self.next += PAGE;
         }
